@@ -223,6 +223,29 @@ def oracle(ctx):
                                   {"by_kind": res})
         if len(ctx.samples) < 10 and (c["df"] * 7 + c["tf"] * 3 + c["of"]) % 41 == 0:
             ctx.sample({"form": name, "string": s, "expected": exp, "impl": ic.impl_parse(None, c["raw"], "bytes")})
+    # AMBIENT PROCESS STATE: the ISO parser reads nothing but its argument.  calendar.setfirstweekday() is process-wide
+    # state that other parts of dateutil do read (rrule's default week start); an ISO week is Monday-based whatever it
+    # says.  Every week-date case and a slice of the others is parsed again under each non-default first weekday.
+    import calendar
+    saved_fwd = calendar.firstweekday()
+    try:
+        for k in range(1, 7):
+            calendar.setfirstweekday(k)
+            for j, c in enumerate(cases):
+                if not (c["df"] in (4, 5, 6, 7) or j % 23 == k):
+                    continue
+                got = ic.impl_parse(None, c["raw"], "bytes")
+                ctx.case(("isoparse@firstweekday", k, c["raw"]))
+                ctx.count("ambient_firstweekday_cases")
+                if got != c["expected"]:
+                    s = c["raw"].decode("latin-1")
+                    name = "%s/%s/%s" % (ic.DATE_FORMS[c["df"]], ic.TIME_FORMS[c["tf"]], ic.OFF_FORMS[c["of"]])
+                    ctx.violation("under calendar.setfirstweekday(%d) isoparse(%r) [%s] = %s, the rendered datetime is %s"
+                                  % (k, s, name, got, c["expected"]),
+                                  {"entry": "isoparse", "sep": None, "kind": "bytes", "string": s, "form": name,
+                                   "expected": c["expected"], "firstweekday": k}, {"impl": got, "render_request": c["line"]})
+    finally:
+        calendar.setfirstweekday(saved_fwd)
     # offsets exhaustively through parse_tzstr
     for (s, zero, exp) in tz_cases():
         got = ic.impl_tz(s, zero)
@@ -260,6 +283,9 @@ def oracle(ctx):
 
 def replay(ctx, payload):
     c = payload["violation"]["case"]
+    if "firstweekday" in c:
+        import calendar
+        calendar.setfirstweekday(c["firstweekday"])
     got = ic.entry_impl(c["entry"], c["string"], c.get("sep"), c.get("zero_as_utc", True), c.get("kind", "str"))
     print("%s(%r) sep=%r kind=%s: impl=%s expected=%s" % (c["entry"], c["string"], c.get("sep"), c.get("kind"), got, c["expected"]))
     return got == c["expected"]
